@@ -365,8 +365,23 @@ func ruleGroupNoRunAfterStop(c *Ctx, r *R) {
 		pf := &PF{N: 8, DeepVisit: true, InScope: func(f *ssa.Function) bool {
 			return rootFn(f).Pkg == pkg && f.Blocks != nil && f != w && f.Name() != "spawn" && !isUserAdaptor(f)
 		}}
-		isGroupCtx := func(v ssa.Value) bool {
+		var isGroupCtx func(v ssa.Value) bool
+		isGroupCtx = func(v ssa.Value) bool {
 			for _, lf := range valueLeaves(v, nil, 0) {
+				// the worker literal is handed the context by the launcher (g.spawn(func(ctx context.Context) {...}) with
+				// spawn calling f(g.ctx)): what the launcher passes
+				if prm, ok := lf.v.(*ssa.Parameter); ok && prm.Parent() != nil && prm.Parent().Parent() != nil {
+					args := literalParamArgs(prm)
+					if len(args) == 0 {
+						return false
+					}
+					for _, a := range args {
+						if !isGroupCtx(a) {
+							return false
+						}
+					}
+					continue
+				}
 				pv := valueProv(lf.v, provEnv{})
 				if len(pv.fields) == 0 || pv.fields[len(pv.fields)-1] != "ctx" {
 					return false
@@ -901,4 +916,65 @@ func isUserAdaptor(f *ssa.Function) bool {
 		}
 	})
 	return nCalls == 1 && user
+}
+
+// literalParamArgs: prm is a parameter of a function literal that is handed to an in-package function H as the argument for
+// H's func-typed parameter P; the result is what H (or a literal of H) passes for prm wherever it calls P.
+func literalParamArgs(prm *ssa.Parameter) []ssa.Value {
+	lit := prm.Parent()
+	idx := -1
+	for i, q := range lit.Params {
+		if q == prm {
+			idx = i
+		}
+	}
+	if idx < 0 || lit.Parent() == nil {
+		return nil
+	}
+	var out []ssa.Value
+	for _, g := range withAnon(rootFn(lit)) {
+		instrs(g, func(_ *ssa.BasicBlock, _ int, in ssa.Instruction) {
+			call, ok := in.(*ssa.Call)
+			if !ok {
+				return
+			}
+			h := call.Call.StaticCallee()
+			if h == nil || h.Blocks == nil || rootFn(h).Pkg != rootFn(lit).Pkg {
+				return
+			}
+			for ai, a := range call.Call.Args {
+				if f := resolveFuncValue(a, 0); f != lit || ai >= len(h.Params) {
+					continue
+				}
+				P := h.Params[ai]
+				// calls of P in h and its literals (through the capture)
+				for _, hg := range withAnon(h) {
+					instrs(hg, func(_ *ssa.BasicBlock, _ int, in2 ssa.Instruction) {
+						c2, ok := in2.(*ssa.Call)
+						if !ok || c2.Call.IsInvoke() {
+							return
+						}
+						v := c2.Call.Value
+						isP := v == ssa.Value(P)
+						if ld, ok := v.(*ssa.UnOp); ok && ld.Op == token.MUL {
+							if cell := cellOf(ld.X); cell != nil {
+								for _, st := range storesTo(cell) {
+									if st.Val == ssa.Value(P) {
+										isP = true
+									}
+								}
+							}
+						}
+						if fv, ok := v.(*ssa.FreeVar); ok && fv.Name() == P.Name() {
+							isP = true
+						}
+						if isP && idx < len(c2.Call.Args) {
+							out = append(out, c2.Call.Args[idx])
+						}
+					})
+				}
+			}
+		})
+	}
+	return out
 }
